@@ -92,6 +92,9 @@ var (
 	caCert *x509.Certificate
 	caPool *x509.CertPool
 	mitmC  *mitm.Config
+	// mitmNoCB: the same authority, with the handshake error callback explicitly cleared
+	// (SetHandshakeErrorCallback(nil) is legal: "if it is non-nil"); conn key hscb=nil.
+	mitmNoCB *mitm.Config
 	orgTLS *tls.Config
 )
 
@@ -109,6 +112,11 @@ func authority() {
 			panic(err)
 		}
 		mitmC.SetHandshakeErrorCallback(func(*http.Request, error) { onHandshakeError() })
+		mitmNoCB, err = mitm.NewConfig(ca, priv)
+		if err != nil {
+			panic(err)
+		}
+		mitmNoCB.SetHandshakeErrorCallback(nil)
 		// the TLS origin uses a certificate minted by the same authority for 127.0.0.1
 		oc, err := mitm.NewConfig(ca, priv)
 		if err != nil {
@@ -116,6 +124,14 @@ func authority() {
 		}
 		orgTLS = oc.TLSForHost("127.0.0.1")
 	})
+}
+
+// mitmConfig: the MITM configuration of this case's proxy.
+func (e *Ex) mitmConfig() *mitm.Config {
+	if e.conn["hscb"] == "nil" {
+		return mitmNoCB
+	}
+	return mitmC
 }
 
 // ---------- recording ----------
@@ -855,7 +871,7 @@ func (e *Ex) start() {
 	p.SetRequestModifier(e.w.reqmod())
 	p.SetResponseModifier(e.w.resmod())
 	if strings.Contains(e.conn["listener"], "mitm") { // mitm, shapedmitm, tlsmitm, shapedtlsmitm
-		p.SetMITM(mitmC)
+		p.SetMITM(e.mitmConfig())
 		// upstream TLS must trust the harness origin; keep the default transport's other settings
 		tr := p.GetRoundTripper().(*http.Transport).Clone()
 		tr.TLSClientConfig = &tls.Config{RootCAs: caPool}
@@ -924,7 +940,7 @@ func (e *Ex) start() {
 			t.TLSClientConfig = &tls.Config{RootCAs: caPool}
 			p.SetRoundTripper(t)
 		}
-		sl = tls.NewListener(e.pl, mitmC.TLS())
+		sl = tls.NewListener(e.pl, e.mitmConfig().TLS())
 	}
 	if strings.HasPrefix(e.conn["listener"], "shaped") {
 		e.shaped = trafficshape.NewListener(sl)
